@@ -30,9 +30,9 @@ package tq
 // within budget and for a retriable error; a Retry-After time is passed on.
 //@ func (*TransferQueue).enqueueAndCollectRetriesFor
 //@   props C15
-//@   at call tq.(*TransferQueue).enqueueAndCollectRetriesFor$1:1 assert err_retriable(err) && q.rc.count[t.Oid] < q.rc.MaxRetries
-//@   at call tq.(*TransferQueue).enqueueAndCollectRetriesFor$1:2 assert err_retriable_later(err) && q.rc.count[t.Oid] < q.rc.MaxRetries && readyTime == err_retry_time(err)
-//@   at call tq.(*TransferQueue).enqueueAndCollectRetriesFor$1:3 assert err_retriable(err) && q.rc.count[tr.Oid] < q.rc.MaxRetries
+//@   at call (*tq.TransferQueue).enqueueAndCollectRetriesFor$1:1 assert err_retriable(err) && q.rc.count[t.Oid] < q.rc.MaxRetries
+//@   at call (*tq.TransferQueue).enqueueAndCollectRetriesFor$1:2 assert err_retriable_later(err) && q.rc.count[t.Oid] < q.rc.MaxRetries && readyTime == err_retry_time(err)
+//@   at call (*tq.TransferQueue).enqueueAndCollectRetriesFor$1:3 assert err_retriable(err) && q.rc.count[tr.Oid] < q.rc.MaxRetries
 
 // The retry bookkeeping itself: a server-provided time wins, then an explicit
 // time, else exponential back-off.
